@@ -33,7 +33,9 @@ def dump(repo=REPO, features=None):
     out = os.path.join(CACHE, f"mir-{key}.mir")
     info = {'tree_hash': key, 'cached': os.path.exists(out)}
     if not os.path.exists(out):
-        tgt = os.path.join(CACHE, 'mir-target' + ('-' + features.replace(',', '_') if features else ''))
+        import hashlib as _h
+        rtag = '' if repo == '/repo' else '-' + _h.sha1(repo.encode()).hexdigest()[:8]
+        tgt = os.path.join(CACHE, 'mir-target' + rtag + ('-' + features.replace(',', '_') if features else ''))
         env = dict(os.environ)
         env.update({'CARGO_TARGET_DIR': tgt, 'CARGO_NET_OFFLINE': 'true', 'RUSTFLAGS': '', 'CARGO_TERM_COLOR': 'never'})
         env.pop('RUSTC_WRAPPER', None)
